@@ -145,3 +145,123 @@ def check_C26(tier, seed):
     finally:
         shutil.rmtree(scratch, ignore_errors=True)
     return res
+
+# ------------------------------------------------------------------ C27
+def build_pytrustfall(wd):
+    """cargo build -p pytrustfall (target dir inside /verif/harness/target, /repo untouched) and assemble an importable package directory"""
+    tgt = os.path.join(ROOT, "harness", "target", "py")
+    p = subprocess.run(["cargo", "build", "-p", "pytrustfall", "--offline", "--quiet"], cwd="/repo", env=dict(os.environ, CARGO_TARGET_DIR=tgt, CARGO_NET_OFFLINE="true"), capture_output=True, text=True)
+    if p.returncode != 0: raise ToolError("pytrustfall does not build:\n" + p.stderr[-3000:])
+    pkg = os.path.join(wd, "pkg"); shutil.rmtree(pkg, ignore_errors=True)
+    shutil.copytree("/repo/pytrustfall/trustfall", os.path.join(pkg, "trustfall"))
+    shutil.copy(os.path.join(tgt, "debug", "libtrustfall.so"), os.path.join(pkg, "trustfall", "trustfall.so"))
+    return pkg
+
+def abstract_obj(o):
+    """python literal description -> PyValue.tla object"""
+    k = o["kind"]
+    if k == "int":
+        n = int(o["v"]); r = "i64" if -(1 << 63) <= n < (1 << 63) else ("u64only" if (1 << 63) <= n < (1 << 64) else ("below_i64" if n < 0 else "above_u64"))
+        return {"kind": "int", "range": r}
+    if k == "float": return {"kind": "float", "finite": not isinstance(o["v"], str)}
+    if k in ("list",): return {"kind": "list", "elems": [abstract_obj(x) for x in o["v"]]}
+    return {"kind": k}
+
+def value_cases():
+    I = lambda n: {"kind": "int", "v": str(n)}
+    scal = [{"kind": "none"}, {"kind": "bool", "v": True}, {"kind": "bool", "v": False}, I(0), I(-1), I(1), I(-(1 << 63)), I((1 << 63) - 1), I(1 << 63), I((1 << 64) - 1), I(1 << 64), I(-(1 << 63) - 1), I(10 ** 30),
+            {"kind": "float", "v": 1.5}, {"kind": "float", "v": -0.5}, {"kind": "float", "v": 0.0}, {"kind": "float", "v": "nan"}, {"kind": "float", "v": "inf"}, {"kind": "float", "v": "-inf"},
+            {"kind": "str", "v": ""}, {"kind": "str", "v": "abc"}, {"kind": "str", "v": "é中"}, {"kind": "tuple", "v": [I(1)]}, {"kind": "dict"}, {"kind": "bytes"}, {"kind": "floatlike"}, {"kind": "object"}]
+    L = lambda *xs: {"kind": "list", "v": list(xs)}
+    lists = [L(), L({"kind": "none"}), L(I(1), I(2)), L(I(1), {"kind": "none"}), L(I(1), I(1 << 63)), L(I(1), {"kind": "str", "v": "a"}), L(I(1), {"kind": "bool", "v": True}), L(I(1), {"kind": "float", "v": 2.5}),
+             L({"kind": "str", "v": "a"}, {"kind": "str", "v": "b"}), L({"kind": "float", "v": 1.5}, {"kind": "float", "v": "nan"}), L(I(1 << 64)), L(L(I(1)), L(I(2), {"kind": "none"})), L(L(), L()), L(L(I(1)), {"kind": "none"}),
+             L(L(I(1)), I(2)), L({"kind": "object"}), L({"kind": "tuple", "v": [I(1)]})]
+    out = []
+    for o in scal + lists:
+        op = "one_of" if False else "="
+        out.append({"id": len(out) + 1, "obj": o, "op": op})
+    return out
+
+def check_C27(tier, seed):
+    import props_engine
+    res = Result("C27", tier, seed, "exploration")
+    wd = workdir("C27")
+    pkg = build_pytrustfall(wd)
+    env = dict(os.environ, RUST_BACKTRACE="0")
+    # (1) rows through the Python bindings + a Python mirror of GraphAdapter = rows of the Rust engine (sequence) = Sem (bag, judged by TLC)
+    insts = universe.semantic_universe("quick", seed + 2700)
+    n = 400 if tier == "quick" else 3000
+    insts = universe.renumber(insts[::max(1, len(insts) // n)][:n])
+    obs = observe(insts, wd, "", seed)
+    ex = [(i, o) for i, o in zip(insts, obs) if o["compile"]["t"] == "ok" and o.get("exec", {}).get("t") == "ok" and len(o["exec"]["rows"]) <= 60]
+    ip, op = os.path.join(wd, "py.in.ndjson"), os.path.join(wd, "py.out.ndjson")
+    write_ndjson(ip, [dict(i, args=o["args"]) for i, o in ex])
+    p = subprocess.run(["python3", os.path.join(ROOT, "bin", "py_c27.py"), "rows", pkg, ip, op], capture_output=True, text=True, env=env, timeout=3000)
+    if p.returncode != 0: raise ToolError("py_c27.py rows failed:\n" + p.stderr[-2000:])
+    pyout = read_ndjson(op)
+    ji, jo = [], []; nontrivial = 0
+    for (inst, o), po in zip(ex, pyout):
+        if po["t"] != "ok":
+            res.violation(f"the Python bindings raised {po['exc']}: {po['msg'][:160]} where the Rust engine returns {len(o['exec']['rows'])} rows, for query {inst['text']!r}", text=po["exc"] + " " + po["msg"], tags=props.inst_tags(inst), replay=props.replay_case(inst, o, python=po)); continue
+        rust_rows = o["exec"]["rows"]
+        same = json.dumps([[ [k, strip_rep(v)] for k, v in r] for r in rust_rows], sort_keys=True) == json.dumps([[[k, strip_rep(v)] for k, v in r] for r in po["rows"]], sort_keys=True)
+        if not same:
+            res.violation(f"rows through the Python bindings differ from the Rust engine's ({len(po['rows'])} vs {len(rust_rows)} rows) for query {inst['text']!r}", text="py-rows-differ", tags=props.inst_tags(inst),
+                          replay=props.replay_case(inst, o, python_rows=po["rows"]))
+        if rust_rows: nontrivial += 1
+        ji.append(inst); jo.append({"id": inst["id"], "t": "ok", "args": o["args"], "rows": po["rows"], "declared": []})
+    # TLC: Python rows = Sem (bag)
+    pi, po_ = os.path.join(wd, "judge.inst.ndjson"), os.path.join(wd, "judge.obs.ndjson")
+    write_ndjson(pi, ji); write_ndjson(po_, jo)
+    r = tlc("JudgeSem", "JudgeSem.cfg", {"INST": pi, "OBS": po_}, wd, workers=NCPU, timeout=3000); res.add_tlc(r)
+    for iid, cls, rest in parse_verdicts(r["out"]):
+        if cls == "C01.mismatch":
+            inst = next(i for i in ji if i["id"] == iid)
+            res.violation(f"rows through the Python bindings differ from the declarative semantics for query {inst['text']!r}", text="py-sem-mismatch", tags=props.inst_tags(inst), replay=props.replay_case(inst, None))
+    # (2) value conversion cases against PyValue.tla
+    cases = value_cases()
+    cp, co = os.path.join(wd, "values.in.json"), os.path.join(wd, "values.out.json")
+    json.dump(cases, open(cp, "w"))
+    p = subprocess.run(["python3", os.path.join(ROOT, "bin", "py_c27.py"), "values", pkg, cp, co], capture_output=True, text=True, env=env, timeout=1200)
+    if p.returncode != 0: raise ToolError("py_c27.py values failed:\n" + p.stderr[-2000:])
+    vout = json.load(open(co))
+    jc = []
+    for c, v in zip(cases, vout):
+        argt = "ok" if v["arg"]["t"] == "ok" else ("valueerr" if v["arg"]["exc"] == "ValueError" else ("typeerr" if v["arg"]["exc"] == "QueryArgumentsError" else "other:" + v["arg"]["exc"]))
+        jc.append({"id": c["id"], "obj": abstract_obj(c["obj"]), "prop": {"t": v["prop"]["t"], "backKind": v["prop"].get("back", {}).get("kind", "-")}, "arg": {"t": argt}})
+    jp = os.path.join(wd, "values.judge.ndjson"); write_ndjson(jp, jc)
+    r = tlc("MC_PyValue", "MC_PyValue.cfg", {"INST": jp}, wd, workers=4, timeout=900); res.add_tlc(r)
+    verd = {iid: (cls, rest) for iid, cls, rest in parse_verdicts(r["out"])}
+    if len(verd) != len(jc): raise ToolError("MC_PyValue: missing verdicts\n" + r["out"][-2500:])
+    for c, v, j in zip(cases, vout, jc):
+        cls, rest = verd[c["id"]]
+        back_same = v["prop"]["t"] != "ok" or faithful(c["obj"], v["prop"]["back"])
+        if cls == "C27.bad" or not back_same:
+            res.violation(f"Python value {c['obj']} converts unfaithfully: as a property value -> {v['prop']}, as an argument -> {v['arg']}; the specification says {tla_unquote(rest)}", text="py-value " + json.dumps(c["obj"])[:100],
+                          replay={"object": c["obj"], "observed": v, "expected": json.loads(tla_unquote(rest))})
+        elif len(res.cov["samples"]) < 4 and c["obj"]["kind"] in ("int", "list"): res.sample({"python_value": c["obj"], "as_property": v["prop"], "as_argument": v["arg"]})
+    res.cov["evaluations"] = len(ex) + len(cases)
+    res.cov["distinct_nontrivial"] = nontrivial
+    res.cov["rule"] = (f"(1) {len(ex)} executable instances of the semantic universe run through the freshly built Python bindings with a Python mirror of GraphAdapter: the row sequence must equal the Rust engine's and (TLC, JudgeSem) its bag the "
+                       f"declarative semantics; (2) {len(cases)} Python values (None, bools, ints at every 64-bit boundary and beyond, finite / non-finite floats, unicode strings, homogeneous / heterogeneous / nested lists, tuple, dict, bytes, float-like, "
+                       "arbitrary objects) sent as property values (Python -> engine -> Python, must come back equal) and as query arguments; accept / reject and the returned kind are judged by TLC against PyValue.tla. "
+                       "distinct non-trivial = instances with at least one row")
+    res.assumptions += ["CPython 3.11 of the sandbox; the deciding observations are CPython's"]
+    return res
+
+def strip_rep(v):
+    if v["k"] == "int": return {"k": "int", "v": v["v"]}
+    if v["k"] == "list": return {"k": "list", "v": [strip_rep(x) for x in v["v"]]}
+    return v
+
+def faithful(obj, back):
+    """the value that came back equals the one sent (floatlike -> its float)"""
+    k = obj["kind"]
+    if k == "none": return back["kind"] == "none"
+    if k == "bool": return back["kind"] == "bool" and back["v"] == obj["v"]
+    if k == "int": return back["kind"] == "int" and back["v"] == obj["v"]
+    if k == "float": return back["kind"] == "float" and float(back["v"]) == float(obj["v"])
+    if k == "floatlike": return back["kind"] == "float" and float(back["v"]) == 2.5
+    if k == "str": return back["kind"] == "str" and back["v"] == obj["v"]
+    if k == "list": return back["kind"] == "list" and len(back["v"]) == len(obj["v"]) and all(faithful(a, b) for a, b in zip(obj["v"], back["v"]))
+    return False
